@@ -252,3 +252,54 @@ func init() {
 		Exceptions: []report.Exception{swapExceptions[1], swapRecvRO},
 	})
 }
+
+var trustedScalar = append([]string{
+	"the ten fiat-crypto routines of scalar_fiat.go as axioms with the contract printed in their generated doc comments (generated from a Coq-verified model): pre eval < m and saturated, post the stated congruence and eval < m",
+	"the abstract interpreter checker/absint with the scalar ring-expression, bit-provenance, exponent and ordering domains; checker/poly",
+}, trustedCommon...)
+
+func init() {
+	register(&Prop{
+		ID: "C07", Level: "other", Technique: "abstract interpretation of the Scalar wrappers in a ring-expression domain over Z/l with the fiat routines as contracted primitives (all aliasing patterns), exponent domain for Invert, bit-provenance domain for Equal, constant audit of the modulus",
+		Explanation: "Decides, given the fiat contracts: Add, Subtract, Negate, Multiply, MultiplyAdd, Set are x+y, x−y, −x, x·y, x·y+z, x in Z/l for every aliasing pattern of receiver and arguments (primitive binding, operand order, Montgomery-form discipline); Invert(t) = t^(l−2) by exponent arithmetic over the sliding-window chain (so Invert(0)=0); Equal returns ¬OR of all 256 bits of the reduced difference in bit 0 and nothing else (exactly 1 or 0); the words of l inside the generated routines and the literal l−1 agree with l = 2^252+27742317777372353535851937790883648493; the zero value is the zero words. NOT decided: the fiat routines themselves (Montgomery arithmetic) and the < l invariant they maintain.",
+		TrustedBase: trustedScalar,
+		Floors:      []report.Floor{{Rule: "RING", Min: 2 * 6}, {Rule: "E7-EXP", Min: 2}, {Rule: "E6-FOLD", Min: 2}, {Rule: "CONST", Min: 2 * 5}},
+		Build: func(c *Ctx) {
+			for _, cfg := range c.Configs() {
+				c.ruleScalarArith(cfg)
+				c.ruleScalarInvertExponent(cfg)
+				c.ruleScalarEqual(cfg)
+				c.ruleScalarConstants(cfg)
+				if a := c.Eff(cfg); a != nil {
+					names := nameSet([]string{"(*Scalar).Add", "(*Scalar).Subtract", "(*Scalar).Negate", "(*Scalar).Multiply", "(*Scalar).MultiplyAdd", "(*Scalar).Invert", "(*Scalar).Equal", "(*Scalar).Set"})
+					c.addAll(keep(a.RAlias(), func(o report.Obligation) bool { return keyHasFunc(o, names) }))
+					c.addAll(keep(a.RReadOnly(), func(o report.Obligation) bool { return keyHasFunc(o, names) }))
+				}
+			}
+		},
+	})
+	register(&Prop{
+		ID: "C08", Level: "other", Technique: "control-dependence classification of reject sites, length sweep on opaque data, ring-expression abstract interpretation of the four codecs over the 512 input bits, ordering-domain enumeration of isReduced, constant audit",
+		Explanation: "Decides, given the fiat contracts: error sites depend exactly on {len ≠ 32, ¬isReduced} / {len ≠ 64} / {len ≠ 32}; every other length is rejected without reading a byte; SetUniformBytes = Σ x[i]·256^i mod l over all 64 bytes (three slices each below l as from_bytes requires, recombined with 2^168 and 2^336 whose Montgomery literals are audited); SetBytesWithClamping = the RFC 8032 §5.1.5 clamped integer mod l, input untouched; SetCanonicalBytes accepts iff isReduced and then stores Σ x[i]·256^i; isReduced returns true exactly when the value is < l (all 50 feasible decision paths over the byte orderings {<,=,>} enumerated; its constant is l−1); Bytes = to_bytes∘from_montgomery; failed setters are atomic. NOT decided: the fiat from_bytes/to_bytes/Montgomery conversions themselves.",
+		TrustedBase: trustedScalar,
+		Floors:      []report.Floor{{Rule: "RING", Min: 2 * 4}, {Rule: "ORD", Min: 2}, {Rule: "G-ACCEPT", Min: 2 * 3}, {Rule: "LEN-SWEEP", Min: 2 * 3}, {Rule: "CONST", Min: 2 * 3}},
+		Build: func(c *Ctx) {
+			for _, cfg := range c.Configs() {
+				names := []string{"(*Scalar).SetCanonicalBytes", "(*Scalar).SetUniformBytes", "(*Scalar).SetBytesWithClamping"}
+				c.ruleAccept(cfg, names)
+				c.ruleSetterAtomic(cfg, nameSet(names))
+				c.ruleLengthSweep(cfg, "(*Scalar).SetCanonicalBytes", 32, 80)
+				c.ruleLengthSweep(cfg, "(*Scalar).SetUniformBytes", 64, 80)
+				c.ruleLengthSweep(cfg, "(*Scalar).SetBytesWithClamping", 32, 80)
+				c.ruleScalarEncodings(cfg)
+				c.ruleIsReduced(cfg)
+				c.ruleScalarConstants(cfg)
+				if a := c.Eff(cfg); a != nil {
+					all := nameSet(append(names, "(*Scalar).Bytes"))
+					c.addAll(keep(a.RReadOnly(), func(o report.Obligation) bool { return keyHasFunc(o, all) }))
+					c.addAll(keep(a.RFresh(), func(o report.Obligation) bool { return keyHasFunc(o, all) }))
+				}
+			}
+		},
+	})
+}
